@@ -89,7 +89,14 @@ pub fn snake_name(stem: &str, rng: &mut Rng) -> String {
         6 => format!("{}_{}{}", stem, rng.range(2, 9), rng.pick(&["fa", "d", "k", "x_mode"])),
         0 => stem.to_string(),
         // single-letter words in front (`r_g_b`, `x_y_offset`): a run of capitals once converted
-        5 => format!("{}_{}_{}", rng.pick(&["r", "x", "u", "a"]), rng.pick(&["g", "y", "v", "b"]), stem),
+        // (one such word alone puts the separator of a kebab-case wire name at the second character)
+        5 => {
+            if rng.coin() {
+                format!("{}_{}_{}", rng.pick(&["r", "x", "u", "a"]), rng.pick(&["g", "y", "v", "b"]), stem)
+            } else {
+                format!("{}_{}", rng.pick(&["r", "x", "u", "a"]), stem)
+            }
+        }
         1 => format!("{}_{}", stem, word(rng)),
         2 => format!("{}_{}", word(rng), stem),
         3 => format!("{}_{}_{}", word(rng), stem, word(rng)),
@@ -109,8 +116,9 @@ pub fn rename_value(stem: &str, rng: &mut Rng, allow_dash: bool) -> String {
         format!("{stem}9"),
         format!("{w}-{stem}"),
         format!("{}-{}-x", stem.to_uppercase(), w),
+        format!("{}-{stem}", &w[..1]),
     ];
-    let n = if allow_dash { forms.len() } else { forms.len() - 2 };
+    let n = if allow_dash { forms.len() } else { forms.len() - 3 };
     forms[rng.below(n)].clone()
 }
 
